@@ -1,0 +1,5 @@
+//go:build !verif
+
+package walstore
+
+func verifPoint(string) {}
